@@ -456,14 +456,15 @@ Section Ops.
   Theorem insert_first_ok k v h loc :
     k < 2 ^ 64 -> v < 2 ^ 64 -> length h = HASH_BYTES -> loc = LAuto \/ loc = LRoot ->
     exists s', insert H k v h loc empty_blob = (Ok 0, s') /\ Inv_tree H s' (ILeaf 0 k v h) /\
-      t_insert H k v h (match loc with LAuto => TAuto | _ => TRoot end) None = (true, Some (erase (ILeaf 0 k v h))).
+      t_insert H k v h (match loc with LAuto => TAuto | _ => TRoot end) None = (true, Some (erase (ILeaf 0 k v h))) /\
+      nblocks s' = 1.
   Proof.
     intros Hk Hv Hh Hloc.
     set (nb := leaf_block (mkLeaf h None k v)).
     assert (Hwb : wf_block nb) by (unfold nb, leaf_block, wf_block, wf_node, wf_leaf; cbn; auto).
     destruct (insert_entry_spec 0 nb empty_blob Hwb) as [s1 [E1 [Hget [Hn [Hbl [Hf [Hk1 Hh1]]]]]]].
     { unfold nblocks. cbn. lia. } { constructor. }
-    exists s1. split; [|split].
+    exists s1. split; [|split; [|split]].
     - unfold insert. cbn [empty_blob k2i h2i amap_mem amap_get].
       assert (El : (match loc with LAuto => get_random_insert_location_by_key_id H k empty_blob | _ => Ok loc end) = Ok LRoot).
       { destruct Hloc as [-> | ->]; reflexivity. }
@@ -494,6 +495,7 @@ Section Ops.
       + auto.
       + exact I.
     - unfold t_insert. cbn [ot_kv m_mem m_get m_has_hash existsb orb]. destruct Hloc as [-> | ->]; reflexivity.
+    - rewrite Hn. reflexivity.
   Qed.
 
   (* ---------- delete of the only leaf ---------- *)
